@@ -18,6 +18,7 @@ def run(rep, tier, seed):
     nh, nops = (32, 110) if tier == 'quick' else (1200, 300)
     res = k2check.run_k2(rep, 'C19', tier, seed, 'c19', nh, nops, extra_histories=[F1])
     damaged_log_segment(rep, tier, seed)
+    salvaged_table_segment(rep, tier, seed)
     rep.cov['repairs'] = sum(r['res'].stats.get('repair', 0) for r in res)
     rep.cov['rule'] = ('histories as for C01 plus: close, lose the metadata (delete MANIFEST+CURRENT / truncate MANIFEST / dangling CURRENT / '
                        'corrupt MANIFEST), ldb_repair, ldb_open, then read every key, scan, and continue with writes and compactions; the model '
@@ -63,9 +64,14 @@ def damaged_log_segment(rep, tier, seed):
         if len(offs) != n:
             continue
         j = rng.range(1, n - 2) if n >= 3 else 0
-        how = rng.choice(['tag', 'tag', 'count'])
+        how = rng.choice(['tag', 'tag', 'count', 'highseq'])
         if how == 'tag': data[offs[j] + 12] = 0x07                      # no such operation
-        else: data[offs[j] + 8] = (data[offs[j] + 8] + 1) & 255           # count does not match the operations
+        elif how == 'count': data[offs[j] + 8] = (data[offs[j] + 8] + 1) & 255           # count does not match the operations
+        else:
+            # nothing damaged, but the sequence numbers are above 2^32 (a long-lived database): byte 4 of the 64-bit
+            # little-endian sequence of EVERY record is raised (repair reads logs without checksum verification)
+            for o in offs: data[o + 4] = (data[o + 4] + 1 + (c % 3)) & 255
+            j = -1
         open(path, 'wb').write(bytes(data))
         rc, txt, err = k2lib.run_c(k2, db, opts, ['repair 0', 'scan -'] + ['get %s -' % k.hex() for k in keys], keep=True)
         calls = k2lib.parse_trace(txt)
@@ -112,6 +118,49 @@ def damaged_log_segment(rep, tier, seed):
                            'implementation': {k.hex(): v for k, v in sorted(content.items())}})
     model.close()
     rep.cov['damaged_log_repairs'] = ncase
+
+def salvaged_table_segment(rep, tier, seed):
+    """Repair of a directory in which an OLDER table has a damaged data block (detected by its checksum under
+    paranoid_checks, the table is rewritten from its readable blocks) and a NEWER table overwrites / deletes some of its
+    keys: after ldb_repair + ldb_open the newer versions must win for point lookups and scans."""
+    import os, shutil, k2lib, k3lib
+    out = vlib.scratch_dir(); k2 = vlib.build_k2(out, 'nothread')
+    rng = vlib.Rng(seed ^ 0x5A1F)
+    ncase = 8 if tier == 'quick' else 200
+    done = 0
+    for c in range(ncase):
+        db = os.path.join(out, 'st%d' % c)
+        nfill = rng.range(120, 260)
+        hx = lambda b: b.hex()
+        ops = ['open', 'put %s @9:1' % hx(b'm'), 'put %s @9:2' % hx(b'q')]
+        ops += ['put %s @%d:%d' % (hx(b'n%04d' % i), rng.range(20, 120), i % 256) for i in range(nfill)]
+        ops += ['flush', 'put %s @9:3' % hx(b'm'), 'del %s' % hx(b'q'), 'put %s @9:4' % hx(b'p'), 'flush', 'layout', 'close']
+        opts = {'write_buffer': 4194304, 'block_size': 1024, 'paranoid': 1, 'compression': c % 2, 'bloom': 10 if c % 3 == 0 else 0}
+        rc, txt, err = k2lib.run_c(k2, db, opts, ops)
+        tabs = sorted(f for f in os.listdir(db) if f.endswith('.ldb')) if os.path.isdir(db) else []
+        if rc != 0 or len(tabs) < 2:
+            shutil.rmtree(db, ignore_errors=True); continue
+        path = os.path.join(db, tabs[0]); data = bytearray(open(path, 'rb').read())
+        pos = rng.range(len(data) // 6, len(data) // 2)          # inside the data blocks of the OLDER table
+        data[pos] ^= 1 << rng.below(8)
+        open(path, 'wb').write(bytes(data))
+        rc, txt, err = k2lib.run_c(k2, db, opts, ['repair 0', 'get %s -' % hx(b'm'), 'get %s -' % hx(b'q'), 'get %s -' % hx(b'p'), 'scan -', 'layout'], keep=True)
+        calls = k2lib.parse_trace(txt)
+        shutil.rmtree(db, ignore_errors=True); shutil.rmtree(db + '.lost', ignore_errors=True)
+        rep.evaluated(1); done += 1; rep.nontrivial(('salvaged-table', nfill, pos % 7))
+        if rc != 0 or len(calls) < 5 or calls[0]['ret'] is None or calls[0]['ret'].split(' ')[0] != '0':
+            rep.violation({'kind': 'repair-failed-on-damaged-table', 'detail': (calls[0]['ret'] if calls else err[-300:]), 'history': ops, 'options': opts, 'flipped_byte': pos}); continue
+        content, st = k3lib.scan_to_map(calls[4]['ret'])
+        bad = []
+        if calls[1]['ret'] != 'found @9:3': bad.append('get m returned %s, the newest surviving value is @9:3' % calls[1]['ret'])
+        if not calls[2]['ret'].startswith('notfound'): bad.append('get q returned %s, the newest surviving entry is a deletion' % calls[2]['ret'])
+        if calls[3]['ret'] != 'found @9:4': bad.append('get p returned %s' % calls[3]['ret'])
+        if st != '0' or content.get(b'm') != '@9:3' or b'q' in content or content.get(b'p') != '@9:4':
+            bad.append('scan shows m=%s q=%s p=%s status=%s' % (content.get(b'm'), content.get(b'q'), content.get(b'p'), st))
+        if bad:
+            rep.violation({'kind': 'repair-salvaged-table-shadows-newer-data', 'detail': '; '.join(bad), 'history': ops, 'options': opts,
+                           'damaged_table': tabs[0], 'flipped_byte': pos})
+    rep.cov['salvaged_table_repairs'] = done
 
 def replay(rep, path):
     return k2check.replay_k2(rep, path)
